@@ -1096,7 +1096,7 @@ func (val Value) HasElement(elem Value) Value {
 		// If we know the type of the given element and the element type of
 		// the set then they must match for the element to be present, because
 		// a set can't contain elements of any other type than its element type.
-		if !elem.Type().Equals(val.ty.ElementType()) {
+		if !typesCouldBeEqual(elem.Type(), val.ty.ElementType()) {
 			return False
 		}
 	}
@@ -1107,18 +1107,24 @@ func (val Value) HasElement(elem Value) Value {
 		return unknownResult
 	}
 	noMatchResult := False
-	if !val.IsWhollyKnown() {
-		// If the set has any unknown elements then a failure to find a
-		// known-value elem in it means that we don't know whether the
-		// element is present, rather than that it definitely isn't.
+	if !val.IsWhollyKnown() || !elem.IsWhollyKnown() {
+		// If the set has any unknown elements, or the given value has
+		// unknown values nested inside it, then a failure to find the
+		// value in the set means that we don't know whether the element is
+		// present, rather than that it definitely isn't.
 		noMatchResult = unknownResult
 	}
+	s := val.v.(set.Set[interface{}])
 	if !ty.ElementType().Equals(elem.Type()) {
-		// A set can only contain an element of its own element type
-		return False
+		// A set can only contain an element of its own element type, but
+		// if we get here with differing types then parts of one of them are
+		// not decided yet and so the types could still turn out to match.
+		if s.Length() == 0 {
+			return False
+		}
+		return unknownResult
 	}
 
-	s := val.v.(set.Set[interface{}])
 	if !s.Has(elem.v) {
 		return noMatchResult
 	}
